@@ -250,7 +250,13 @@ macro_rules! impl_derivatives {
 
             #[inline]
             fn tanh(&self) -> Self {
-                self.sinh() / self.cosh()
+                // closed form in tanh alone: the quotient sinh/cosh is inf/inf = NaN once cosh overflows
+                let f0 = self.re.tanh();
+                let f1 = T::one() - f0.clone() * &f0;
+                second!($deriv, let two = F::one() + F::one(););
+                second!($deriv, let f2 = -f0.clone() * &f1 * two;);
+                third!($deriv, let f3 = (f0.clone() * &f0 * (two + two) - f1.clone() * two) * &f1;);
+                chain_rule!($deriv, Self::chain_rule(self, f0, f1, f2, f3))
             }
 
             #[inline]
